@@ -141,6 +141,25 @@ theorem scope_safe_partial {L : Type} [DecidableEq L] (p : List (Prim L)) (hns :
 example : ∀ n, Prim.beginScope n ∉ ([.label "b", .goto "e", .brk (some "e"), .goto "b", .label "e"] : List (Prim String)) := by
   intro n; simp
 
+/-! ### Path-level safety ("every opened scope is closed on every path") by a checked certificate
+
+  `pathSafe p fuel` searches a finite set of heads and CHECKS that it contains the start head, is closed under every
+  step of the look-up model and contains no failing step.  The check is the proof: -/
+
+/-- If the path checker accepts a program then on EVERY execution (any branch outcomes, any fork child, success or
+    failure of every match) no label look-up fails and no head meets `BeginScope(n)` while it still holds `n`
+    (the `ColangRuntimeError` "Scope … already opened in this head" of the when/else defect). -/
+theorem path_checker_sound {L : Type} [DecidableEq L] (p : List (Prim L)) (fuel : Nat) (hs : pathSafe p fuel = true)
+    (h : Head L) (hr : Reach p h) (c : Bool) :
+    step p h c ≠ .keyError ∧ step p h c ≠ .invalidLabel ∧ step p h c ≠ .scopeError :=
+  (closedUnder_sound p _ hs h hr).2 c
+
+/-- the unrepaired `when … else` in a loop is rejected by the path checker, the repaired expansion (model of /repo
+    3c50707, with a flow-starting case, nested in a loop) is accepted (finite facts, by evaluation) -/
+example : pathSafe whenElseInLoop 500 = false ∧
+    pathSafe (expandFlow [.whileS [.whenS [[[⟨.ev, false⟩, ⟨.flow, true⟩]], [[⟨.action, false⟩]]] [[.brk], [.send]] [.cont] true]]) 2000 = true := by
+  decide
+
 /-! ## (A) Colang 1.0: the verified checker -/
 
 /-- The executable checker decides "every relative jump / branch offset lands inside the flow, the fields `slide`
@@ -183,6 +202,57 @@ theorem v1_offsets_in_bounds (items : List Item) (es : List Elem) (h : compileFu
     obtain ⟨h1, h2⟩ := resolveGotos_ok _ _ hr (compile_ok items)
     exact processEllipsis_ok es0 h1 h2
 
+/-- `v1_goto_resolved`: in every flow `parse_flow_elements` accepts, a `goto n` at index `i` of the extracted list
+    has a checkpoint `label n` at some index `k` of the same flow, and in the result it is the relative jump with
+    `i + _next = k` — it lands exactly on (the jump that replaced) its label.  In particular a goto to an undefined
+    checkpoint is never left dangling: the flow is rejected (`v1_undefined_goto_rejected`). -/
+theorem v1_goto_resolved (items : List Item) (es : List Elem) (h : compileFull items = .ok es) (i : Nat) (e : Elem)
+    (hi : (compile items)[i]? = some e) (hg : e.kind = .goto) :
+    ∃ (n : String) (k : Nat) (e' lab : Elem), e.name = some n ∧ es[i]? = some e' ∧ e'.kind = .jump ∧
+      e'.absolute = false ∧ e'.next = some ((k : Int) - (i : Int)) ∧ (i : Int) + ((k : Int) - (i : Int)) = k ∧
+      (compile items)[k]? = some lab ∧ lab.kind = .label ∧ lab.name = some n := by
+  unfold compileFull at h
+  cases hr : resolveGotos (compile items) with
+  | error m => rw [hr] at h; cases h
+  | ok es0 =>
+    rw [hr] at h
+    cases h
+    obtain ⟨n, k, e', lab, h1, h2, h3, h4, h5, h6, h7⟩ := resolveGotos_lands _ _ hr i e hi hg
+    have hab : e'.absolute = false := by
+      have hok := (resolveGotos_ok _ _ hr (compile_ok items)).1
+      -- the source goto is not absolute (only `return` is), `_resolve_gotos` does not touch the flag
+      cases hb : e'.absolute with
+      | false => rfl
+      | true =>
+        exfalso
+        have hsrc := (compile_ok items) i e hi
+        cases hbe : e.absolute with
+        | true => have := hsrc.absJump hbe; rw [hg] at this; cases this
+        | false =>
+          -- e' = { e with kind := jump, next := .. } : same flag
+          have := resolveGotos_flag _ _ hr i e e' hi h2
+          rw [this, hbe] at hb; cases hb
+    exact ⟨n, k, e', lab, h1, processEllipsis_keeps_jump es0 i e' h2 h3, h3, hab, h4, by omega, h5, h6, h7⟩
+
+/-- a goto whose checkpoint is not defined in the flow makes the compiler reject the flow -/
+theorem v1_undefined_goto_rejected (items : List Item) (i : Nat) (e : Elem) (n : String)
+    (hi : (compile items)[i]? = some e) (hg : e.kind = .goto) (hn : e.name = some n)
+    (hundef : ∀ (k : Nat) (lab : Elem), (compile items)[k]? = some lab → lab.kind = .label → lab.name ≠ some n) :
+    ∃ m, compileFull items = .error m := by
+  cases hc : compileFull items with
+  | error m => exact ⟨m, rfl⟩
+  | ok es =>
+    obtain ⟨n', k, _, lab, h1, _, _, _, _, _, h5, h6, h7⟩ := v1_goto_resolved items es hc i e hi hg
+    rw [hn] at h1; cases h1
+    exact absurd h7 (hundef k lab h5 h6)
+
+/-- non-vacuity: a backward and a forward goto (finite fact, by evaluation) -/
+example : (match compileFull [.label "a", .goto "b", .simple "user", .label "b", .goto "a"] with
+    | .ok es => es.map (·.next) == [some 1, some 2, none, some 1, some (-4)]
+    | .error _ => false) = true ∧
+    (match compileFull [.goto "nowhere"] with | .ok _ => false | .error _ => true) = true := by
+  decide
+
 /-- non-vacuity: a nested while / if-else / break / goto program compiles and passes (finite fact, by evaluation) -/
 example : (match compileFull [.label "top", .whileS [.ifS [.simple "break"] [.simple "continue"], .simple "user"],
       .branches [[.simple "user"], [.simple "user", .goto "top"]], .ret] with
@@ -196,39 +266,41 @@ example : v1Closed [{ kind := .ifK, nextElse := some 2 }] = false ∧
     v1Closed [{ kind := .ifK }] = false ∧ v1Closed [{ kind := .goto, name := some "x" }] = false := by
   decide
 
-/-! ## (C) Colang 2.x: the expansion model (if / elif / else, while / break / continue) -/
+/-! ## (C) Colang 2.x: the expansion model
 
-/-- The expansion of ANY statement list (arbitrary nesting) is closed: every goto / break / continue target is a label
-    of the same flow (a `break` / `continue` outside any loop keeps `label = None`), only primitives remain, and no
-    scope / merge element is produced. -/
-theorem expand_closed (ss : List Stmt) : Closed (expandFlow ss) :=
-  closed_of_inv _ 0 (expand_inv none ss 0)
+  Source language: if / elif / else, while / break / continue, `match` / `send` / `start` / `await` of single specs and
+  of and/or groups (fork / merge / wait templates), `activate` / `deactivate`, NLD assignment, `when / or when / else`
+  (with the repaired else path of /repo 3c50707: MergeHeads + EndScope).  `wfList` only asks for what the parser
+  guarantees (a `when` has ≥ 1 case, one then-body per case, every case ≥ 1 group). -/
+
+/-- The expansion of ANY well-formed statement list (arbitrary nesting) is closed: every goto / fork / failure-handler /
+    break / continue target is a label of the same flow (a `break` / `continue` outside any loop keeps `label = None`),
+    only primitives remain, every MergeHeads has its ForkHead before it, every EndScope a BeginScope before it and every
+    BeginScope an EndScope after it. -/
+theorem expand_closed (ss : List Stmt) (hwf : wfList ss = true) : Closed (expandFlow ss) :=
+  closed_of_inv _ 0 (expand_inv none ss 0 hwf)
 
 /-- hence the proved checker accepts it … -/
-theorem expand_checker_accepts (ss : List Stmt) : closed (expandFlow ss) = true :=
-  (closed_checker_correct _).2 (expand_closed ss)
+theorem expand_checker_accepts (ss : List Stmt) (hwf : wfList ss = true) : closed (expandFlow ss) = true :=
+  (closed_checker_correct _).2 (expand_closed ss hwf)
 
-/-- … and no look-up of `slide` fails on any execution of the expanded flow, nor can the scope error occur. -/
-theorem expand_safe (ss : List Stmt) (h : Head Lbl) (hr : Reach (expandFlow ss) h) (c : Bool) :
-    step (expandFlow ss) h c ≠ .keyError ∧ step (expandFlow ss) h c ≠ .invalidLabel ∧
-    step (expandFlow ss) h c ≠ .scopeError ∧ h.pos ≤ (expandFlow ss).length := by
-  obtain ⟨h1, h2, h3⟩ := closed_reachable_safe _ (expand_closed ss) h hr c
-  refine ⟨h1, h2, ?_, h3⟩
-  apply scope_safe_partial
-  intro n hn
-  exact ((expand_inv none ss 0).plain _ hn).2.1 n rfl
+/-- … and no label look-up of `slide` / `run_to_completion` fails on any execution of the expanded flow. -/
+theorem expand_safe (ss : List Stmt) (hwf : wfList ss = true) (h : Head Lbl) (hr : Reach (expandFlow ss) h) (c : Bool) :
+    step (expandFlow ss) h c ≠ .keyError ∧ step (expandFlow ss) h c ≠ .invalidLabel ∧ h.pos ≤ (expandFlow ss).length :=
+  closed_reachable_safe _ (expand_closed ss hwf) h hr c
 
 /-- Fresh-label lemma for the uid counter: every label defined while expanding `ss` from counter value `c` carries a
-    counter value in `[c, c')` where `c'` is the counter afterwards (so labels of consecutive / nested expansions never
-    collide) … -/
-theorem expand_labels_fresh (cb : Option (Lbl × Lbl)) (ss : List Stmt) (c : Nat) (l : Lbl)
+    counter value in `[c, c')` where `c'` is the counter afterwards — labels of consecutive / nested expansions (and of
+    the several copies the compiler makes of a then- / else-body) never collide. -/
+theorem expand_labels_fresh (cb : Option (Lbl × Lbl)) (ss : List Stmt) (hwf : wfList ss = true) (c : Nat) (l : Lbl)
     (h : Prim.label l ∈ (expand cb ss c).1) : c ≤ l.2 ∧ l.2 < (expand cb ss c).2 :=
-  (expand_inv cb ss c).fresh l h
+  (expand_inv cb ss c hwf).fresh l h
 
-/-- … and all labels of an expanded flow are pairwise distinct (for this subset; `when` duplicates labels in the real
-    compiler, which is why `Closed` does not demand uniqueness). -/
-theorem expand_labels_nodup (ss : List Stmt) : (labelsOf (expandFlow ss)).Nodup :=
-  expand_nodup none ss 0
+/-- every template on its own: the fork / merge / wait templates (match and-groups, or-groups, await or-groups with
+    their scope) over arbitrary closed branch bodies are closed pieces -/
+theorem fork_template_closed (v : Variant) (pre : Nat → String) (gens : List Gen) (hg : ∀ g ∈ gens, GenOK [] g) (c : Nat) :
+    Closed (forkTemplate v pre gens c).1 :=
+  closed_of_inv _ c (forkTemplate_ok [] v pre gens hg c)
 
 /-- `break` / `continue` are resolved to the labels of the innermost enclosing loop, also through `if` (finite fact) -/
 example : expandFlow [.whileS [.ifS [.brk] [.whileS [.cont]]], .brk] =
@@ -237,6 +309,14 @@ example : expandFlow [.whileS [.ifS [.brk] [.whileS [.cont]]], .brk] =
      .label ("_while_begin_", 3), .goto ("_while_end_", 3), .cont (some ("_while_begin_", 3)), .goto ("_while_begin_", 3), .label ("_while_end_", 3),
      .label ("if_end_label_", 2),
      .goto ("_while_begin_", 0), .label ("_while_end_", 0), .brk none] := by
+  decide
+
+/-- non-vacuity of `wfList` and a look at the repaired `when … else` inside a loop: closed, and (finite fact) the path that
+    made the unrepaired compiler's output raise "Scope … already opened" now ends in `EndScope` before the loop repeats -/
+example : wfList [.whileS [.whenS [[[⟨.ev, false⟩]]] [[.send]] [.send] true]] = true ∧
+    closed (expandFlow [.whileS [.whenS [[[⟨.ev, false⟩]]] [[.send]] [.send] true]]) = true ∧
+    (expandFlow [.whileS [.whenS [[[⟨.ev, false⟩]]] [[.send]] [.send] true]]).filter (fun e => e == .endScope ("scope_", 1))
+      = [.endScope ("scope_", 1), .endScope ("scope_", 1)] := by
   decide
 
 end NemoVerif.C12
